@@ -240,6 +240,42 @@ pub fn trace_flush_order() -> Option<String> {
     None
 }
 
+/// thorough tier: a random history over the same step alphabet (no edits of conflict copies: those are the H7 histories),
+/// always ending in bisync, bisync, dry-run - the second run and the dry run must find nothing to do
+pub fn random_history(rseed: u64) -> Vec<Step> {
+    let mut r = crate::rng::Rng(rseed ^ 0xB15C_0000);
+    const P: [&str; 3] = ["f", "g", "d/h"];
+    const C: [&str; 5] = ["v1", "v2", "a-longer-third-version", "", "v1\n"];
+    let n = 4 + r.below(9);
+    let mut v = vec![];
+    for _ in 0..n {
+        match r.below(10) {
+            0..=3 => v.push(W(r.below(2) as u8, P[r.below(3) as usize], C[r.below(5) as usize])),
+            4 | 5 => v.push(D(r.below(2) as u8, P[r.below(3) as usize])),
+            6..=8 => v.push(S),
+            _ => v.push(if r.below(2) == 0 { Dry } else { NormMtime }),
+        }
+    }
+    v.push(S); v.push(S); v.push(Dry);
+    v
+}
+pub fn search_t(contract: &str, as_twin: bool, seed: u64, budget: u64) -> i32 {
+    let rc = search(contract, as_twin);
+    if budget > 30 && !std::env::var("COPIA_BIN").unwrap_or_default().is_empty() {
+        let t0 = std::time::Instant::now();
+        let mut n = 0u64;
+        while t0.elapsed().as_secs() < budget.min(90) && n < 3000 {
+            let rseed = seed.wrapping_mul(1000).wrapping_add(n);
+            let steps = random_history(rseed);
+            for what in run_history_all(&format!("random-{rseed}"), &steps) {
+                println!("WITNESS {{\"kind\":\"bisync\",\"scenario\":9999,\"rseed\":{rseed},\"name\":\"random-{rseed}\",\"what\":\"{}\"}}", what.replace('"', "'").replace('\n', " "));
+            }
+            n += 1;
+        }
+        if as_twin { println!("CASES {}", scenarios().len() as u64 + n); }
+    }
+    rc
+}
 pub fn search(contract: &str, as_twin: bool) -> i32 {
     if !as_twin && contract.ends_with("copy_atomic") {
         if let Some(what) = trace_flush_order() {
@@ -274,6 +310,13 @@ fn search_h(_contract: &str, as_twin: bool) -> i32 {
 pub fn run_w(w: &str) -> i32 {
     let i = json_u64(w, "scenario").unwrap_or(0) as usize;
     let _ = json_str(w, "name");
+    if i == 9999 {
+        let rseed = json_u64(w, "rseed").unwrap_or(0);
+        let steps = random_history(rseed);
+        println!("random history {rseed}: {steps:?}");
+        let all = run_history_all(&format!("random-{rseed}"), &steps);
+        return if all.is_empty() { println!("not reproduced: every clause holds on this history"); 0 } else { for w in &all { println!("REPRODUCED: {w}"); } 1 };
+    }
     let sc = scenarios();
     let (name, steps) = &sc[i.min(sc.len() - 1)];
     println!("history `{name}`: {steps:?}");
